@@ -97,13 +97,22 @@ def install_observers():
     orig_blocker = plan.merge_plan.process_blocker
 
     def process_blocker(self, stack, choices, blocker, mode, atom):
+        pre = None
+        if _TRACE is not None:
+            try:
+                # pure query: what the plan already holds that the blocker matches (decides whether
+                # _ensure_livefs_is_loaded looks at the installed packages at all)
+                pre = [[p.cpvstr, bool(p.repo.livefs)] for p in self.state.match_atom(blocker)]
+            except Exception:
+                pre = None
         ret = orig_blocker(self, stack, choices, blocker, mode, atom)
         if _TRACE is not None and len(_TRACE) < MAX_TRACE:
             try:
                 p = choices.matches_cur
                 _TRACE.append({"atom": str(blocker), "mode": mode, "ok": not ret,
                                "parent": {"cpv": p.cpvstr, "livefs": bool(p.repo.livefs)} if p is not None else None,
-                               "pkg": None, "how": "blocker"})
+                               "pkg": None, "how": "blocker", "serial": None, "plan_matched_before": pre,
+                               "parent_serial": _MARKS[-1]["serial"] if _MARKS else None})
             except Exception:
                 pass
         return ret
@@ -111,22 +120,33 @@ def install_observers():
     def _rec_add_atom(self, atom, stack, dbs, mode="none", drop_cycles=False):
         if _TRACE is None:
             return orig_rec(self, atom, stack, dbs, mode=mode, drop_cycles=drop_cycles)
-        mark = {"frame": None, "presolved": False, "cycle": None}
         _NCALLS[0] += 1
+        mark = {"frame": None, "presolved": False, "cycle": None, "serial": _NCALLS[0], "atom": str(atom),
+                "nested_pkg": None}
+        parent_frame = stack[-1] if len(stack) else None
+        parent = _cur(parent_frame) if parent_frame is not None else None
+        parent_serial = None
+        for m in reversed(_MARKS):
+            if m["frame"] is parent_frame and parent_frame is not None:
+                parent_serial = m["serial"]
+                break
         _MARKS.append(mark)
-        parent = _cur(stack[-1]) if len(stack) else None
         try:
             ret = orig_rec(self, atom, stack, dbs, mode=mode, drop_cycles=drop_cycles)
         finally:
             _MARKS.pop()
         try:
+            fr = mark["frame"]
+            how = ("slot-cycle" if mark["cycle"] == "assumed" else "presolved" if mark["presolved"] else
+                   "vdb-limited" if mark["cycle"] == "vdb" else "chosen")
+            pkg = None
+            if not ret:
+                pkg = mark["nested_pkg"] if how == "vdb-limited" else (_cur(fr) if fr is not None else None)
+                if _MARKS and _MARKS[-1]["atom"] == mark["atom"]:
+                    _MARKS[-1]["nested_pkg"] = pkg      # we are the vdb-limited re-run of the enclosing invocation
             if len(_TRACE) < MAX_TRACE:
-                fr = mark["frame"]
-                _TRACE.append({"atom": str(atom), "mode": mode, "ok": not ret, "parent": parent,
-                               "pkg": _cur(fr) if (fr is not None and not ret) else None,
-                               "how": ("slot-cycle" if mark["cycle"] == "assumed" else
-                                       "presolved" if mark["presolved"] else
-                                       "vdb-limited" if mark["cycle"] == "vdb" else "chosen")})
+                _TRACE.append({"atom": mark["atom"], "mode": mode, "ok": not ret, "parent": parent, "pkg": pkg,
+                               "how": how, "serial": mark["serial"], "parent_serial": parent_serial})
         except Exception:
             pass
         return ret
@@ -217,6 +237,15 @@ def _recursion_signature(exc):
         if period:
             break
     sig = {"resolver_frames": len(frames), "rec_add_atom_frames": n_rec, "period": period, "head": frames[:4]}
+    # the most repeated (atom, mode, candidate) frames, with the furthest any of them got through its candidates
+    counts = {}
+    for f in frames:
+        k = tuple(f[:3])
+        c = counts.setdefault(k, [0, 0])
+        c[0] += 1
+        c[1] = max(c[1], f[3])
+    top = sorted(counts.items(), key=lambda kv: -kv[1][0])[:3]
+    sig["most_repeated"] = [[list(k), c[0], c[1]] for k, c in top]
     if period:
         cyc = frames[len(frames) - trim - 2 * period:len(frames) - trim - period]
         sig["cycle"] = cyc
